@@ -6,6 +6,20 @@ package obifp
 // Exhaustive over all limb tuples from a boundary alphabet (limbs are set directly through the
 // unexported fields, not through the shifts under test), every unary op, every binary op on all
 // operand pairs, every shift amount 0..width+64, all casts. Oracle: math/big.
+//
+// Audit extensions:
+//   - the exported per-limb primitives of Uint64 are driven directly (LeftShift64 / RightShift64 with a
+//     carry-in word and both outputs, Add64 / Sub64 with carry-in 0 and 1, Mul64 (value, carry));
+//   - shifts "by any amount": amounts far beyond the width (2^31 .. 2^64-1), under a hang guard;
+//   - operands 2^k-1, 2^k, 2^k+1 for EVERY k of the width (quantifier) next to the limb tuples, a
+//     larger limb alphabet for Uint64 / Uint128, Set64 / From64 of every alphabet value on zero and
+//     all-ones receivers, ZeroUint / OneUint;
+//   - the operation sequences of the generic client (pkg/obikmer/kmermap.go) written against the
+//     FPUint constraint and instantiated at the three widths: mask construction for every k, rolling
+//     forward / reverse words, sparse squeeze, canonical choice, decoding; every intermediate result is
+//     compared with math/big;
+//   - the known finding Uint128.Mul/missed-overflow:both-operands>=2^64 is narrowed to the inputs whose
+//     ONLY out-of-range partial product is w1*w1 (the one Mul never computes).
 
 import (
 	"encoding/json"
@@ -26,6 +40,7 @@ type c20case struct {
 	A     []uint64 `json:"a"` // little-endian limbs
 	B     []uint64 `json:"b,omitempty"`
 	N     uint     `json:"n,omitempty"`
+	Word  string   `json:"word,omitempty"` // Op "seq": nucleotide codes '0'..'3' rolled through the client sequence (k = N)
 }
 
 func c20big(l []uint64) *big.Int {
@@ -98,6 +113,17 @@ func c20guard(f func() c20out, mayHang bool) (o c20out) {
 	return c20out{hung: true}
 }
 
+// c20mayHang: operations that contain data-dependent loops and are run under the hang guard.
+func c20mayHang(c c20case) bool {
+	switch c.Op {
+	case "Div", "Mod", "QuoRem":
+		return c.Width > 64
+	case "LeftShift", "RightShift":
+		return c.N > uint(c.Width)+64
+	}
+	return false
+}
+
 // c20run executes op on the implementation.
 func c20run(c c20case) c20out {
 	num := func(l []uint64) c20out { return c20out{limbs: l} }
@@ -157,13 +183,32 @@ func c20run(c c20case) c20out {
 				return num(l64(b.Set64(c.A[0])))
 			case "From64":
 				return num(l64(From64[Uint64](c.A[0])))
+			case "ZeroUint":
+				return num(l64(ZeroUint[Uint64]()))
+			case "OneUint":
+				return num(l64(OneUint[Uint64]()))
 			case "Zero":
 				return num(l64(a.Zero()))
 			case "MaxValue":
 				return num(l64(a.MaxValue()))
+			case "LeftShift64": // B = [carryIn]
+				v, cy := a.LeftShift64(c.N, c.B[0])
+				return c20out{limbs: []uint64{v}, limbs2: []uint64{cy}}
+			case "RightShift64":
+				v, cy := a.RightShift64(c.N, c.B[0])
+				return c20out{limbs: []uint64{v}, limbs2: []uint64{cy}}
+			case "Add64": // B = [v, carryIn]
+				v, cy := a.Add64(b, c.B[1])
+				return c20out{limbs: []uint64{v}, limbs2: []uint64{cy}}
+			case "Sub64":
+				v, cy := a.Sub64(b, c.B[1])
+				return c20out{limbs: []uint64{v}, limbs2: []uint64{cy}}
+			case "Mul64":
+				v, cy := a.Mul64(b)
+				return c20out{limbs: []uint64{v}, limbs2: []uint64{cy}}
 			}
 			panic("unknown op " + c.Op)
-		}, false)
+		}, c20mayHang(c))
 	case 128:
 		a := mk128(c.A)
 		var b Uint128
@@ -240,13 +285,17 @@ func c20run(c c20case) c20out {
 				return num(l128(b.Set64(c.A[0])))
 			case "From64":
 				return num(l128(From64[Uint128](c.A[0])))
+			case "ZeroUint":
+				return num(l128(ZeroUint[Uint128]()))
+			case "OneUint":
+				return num(l128(OneUint[Uint128]()))
 			case "Zero":
 				return num(l128(a.Zero()))
 			case "MaxValue":
 				return num(l128(a.MaxValue()))
 			}
 			panic("unknown op " + c.Op)
-		}, c.Op == "Div" || c.Op == "Mod" || c.Op == "QuoRem")
+		}, c20mayHang(c))
 	case 256:
 		a := mk256(c.A)
 		var b Uint256
@@ -301,13 +350,17 @@ func c20run(c c20case) c20out {
 				return num(l256(b.Set64(c.A[0])))
 			case "From64":
 				return num(l256(From64[Uint256](c.A[0])))
+			case "ZeroUint":
+				return num(l256(ZeroUint[Uint256]()))
+			case "OneUint":
+				return num(l256(OneUint[Uint256]()))
 			case "Zero":
 				return num(l256(a.Zero()))
 			case "MaxValue":
 				return num(l256(a.MaxValue()))
 			}
 			panic("unknown op " + c.Op)
-		}, c.Op == "Div")
+		}, c20mayHang(c))
 	}
 	panic("bad width")
 }
@@ -351,6 +404,74 @@ func c20check(c c20case) (msg string, nontrivial bool) {
 		}
 		return ""
 	}
+	if c.Width == 64 {
+		// exported per-limb primitives of Uint64 (two result words, never a panic)
+		two := func(wantV, wantC uint64, checkV bool) (string, bool) {
+			if o.panicked {
+				return "unexpected panic", true
+			}
+			if checkV && o.limbs[0] != wantV {
+				return fmt.Sprintf("value: got %x want %x (carry got %x want %x)", o.limbs[0], wantV, o.limbs2[0], wantC), true
+			}
+			if o.limbs2[0] != wantC {
+				return fmt.Sprintf("carry: got %x want %x (value %x)", o.limbs2[0], wantC, o.limbs[0]), true
+			}
+			return "", true
+		}
+		u := c.A[0]
+		switch c.Op {
+		case "LeftShift64":
+			// doc comment: value = u << n | (carryIn & ((1 << n) - 1)); carry = the bits moved out of the
+			// word, i.e. the upper word of the 128-bit value u << n (0 once they left that word too).
+			// n >= 128 with a non-zero carry-in: value left unconstrained (the code warns "overflow").
+			cin, n := c.B[0], c.N
+			x := new(big.Int)
+			if n < 128 {
+				x.Lsh(A, n)
+			}
+			l := c20limbs(x, 2)
+			switch {
+			case n == 0:
+				return two(u, 0, true)
+			case n < 64:
+				return two(l[0]|cin&(uint64(1)<<n-1), l[1], true)
+			default:
+				return two(cin, l[1], n < 128 || cin == 0)
+			}
+		case "RightShift64":
+			// mirror image: the carry-in word supplies the n upper bits, the carry is the lower word of
+			// (u * 2^64) >> n. Carry-in words are generated inside that window only.
+			cin, n := c.B[0], c.N
+			x := new(big.Int).Lsh(A, 64)
+			x.Rsh(x, n)
+			l := c20limbs(x, 2)
+			switch {
+			case n == 0:
+				return two(u, 0, true)
+			case n < 64:
+				return two(l[1]|cin, l[0], true)
+			default:
+				return two(cin, l[0], n < 128 || cin == 0)
+			}
+		case "Add64":
+			x := new(big.Int).Add(A, new(big.Int).SetUint64(c.B[0]))
+			x.Add(x, new(big.Int).SetUint64(c.B[1]))
+			l := c20limbs(x, 2)
+			return two(l[0], l[1], true)
+		case "Sub64":
+			x := new(big.Int).Sub(A, new(big.Int).SetUint64(c.B[0]))
+			x.Sub(x, new(big.Int).SetUint64(c.B[1]))
+			borrow := uint64(0)
+			if x.Sign() < 0 {
+				borrow = 1
+				x.Add(x, mod)
+			}
+			return two(c20limbs(x, 1)[0], borrow, true)
+		case "Mul64":
+			l := c20limbs(new(big.Int).Mul(A, new(big.Int).SetUint64(c.B[0])), 2)
+			return two(l[0], l[1], true)
+		}
+	}
 	switch c.Op {
 	case "Add", "Add64":
 		return exactOrPanic(new(big.Int).Add(A, B))
@@ -362,8 +483,11 @@ func c20check(c c20case) (msg string, nontrivial bool) {
 		if m := noPanic(); m != "" {
 			return m, true
 		}
-		x := new(big.Int).Lsh(A, c.N)
-		x.Mod(x, mod)
+		x := new(big.Int)
+		if c.N < W { // (a huge amount would make math/big allocate 2^n bits)
+			x.Lsh(A, c.N)
+			x.Mod(x, mod)
+		}
 		return eqNum(x, nl, o.limbs), c.N >= 64 || x.Sign() != 0
 	case "RightShift":
 		if m := noPanic(); m != "" {
@@ -478,11 +602,16 @@ func c20check(c c20case) (msg string, nontrivial bool) {
 			return m, true
 		}
 		return eqNum(new(big.Int).SetUint64(c.A[0]), nl, o.limbs), true
-	case "Zero":
+	case "Zero", "ZeroUint":
 		if m := noPanic(); m != "" {
 			return m, true
 		}
 		return eqNum(new(big.Int), nl, o.limbs), false
+	case "OneUint":
+		if m := noPanic(); m != "" {
+			return m, true
+		}
+		return eqNum(big.NewInt(1), nl, o.limbs), true
 	case "MaxValue":
 		if m := noPanic(); m != "" {
 			return m, true
@@ -507,14 +636,222 @@ func c20tuples(alpha []uint64, n int) [][]uint64 {
 	return out
 }
 
+// ---------------------------------------------------------------------------------------------
+// Operation sequences of the generic client (pkg/obikmer/kmermap.go), written against the FPUint
+// constraint exactly as the client is (ZeroUint / OneUint / From64 + methods through the type
+// parameter). Every intermediate value is compared with math/big; after a mismatch the run is
+// resynchronised on the model so that one defect does not cascade.
+
+type c20p[T FPUint[T]] struct {
+	v T
+	b *big.Int
+}
+
+type c20g[T FPUint[T]] struct {
+	W     uint
+	toL   func(T) []uint64
+	fromL func([]uint64) T
+	mod   *big.Int
+	fail  func(step, desc string)
+	phase string
+	n     int64
+}
+
+func (g *c20g[T]) ok(op string, v T, want *big.Int, in string) c20p[T] {
+	g.n++
+	if got := c20big(g.toL(v)); got.Cmp(want) != 0 {
+		g.fail(g.phase+":"+op+"/wrong-value", fmt.Sprintf("%s(%s) = %x want %x", op, in, got, want))
+		v = g.fromL(c20limbs(want, int(g.W/64)))
+	}
+	return c20p[T]{v, want}
+}
+func (g *c20g[T]) zero() c20p[T] { return g.ok("ZeroUint", ZeroUint[T](), new(big.Int), "") }
+func (g *c20g[T]) one() c20p[T]  { return g.ok("OneUint", OneUint[T](), big.NewInt(1), "") }
+func (g *c20g[T]) from64(x uint64) c20p[T] {
+	return g.ok("From64", From64[T](x), new(big.Int).SetUint64(x), fmt.Sprint(x))
+}
+func (g *c20g[T]) lsh(p c20p[T], n uint) c20p[T] {
+	w := new(big.Int).Lsh(p.b, n)
+	return g.ok("LeftShift", p.v.LeftShift(n), w.Mod(w, g.mod), fmt.Sprintf("%x, %d", p.b, n))
+}
+func (g *c20g[T]) rsh(p c20p[T], n uint) c20p[T] {
+	return g.ok("RightShift", p.v.RightShift(n), new(big.Int).Rsh(p.b, n), fmt.Sprintf("%x, %d", p.b, n))
+}
+func (g *c20g[T]) and(p, q c20p[T]) c20p[T] {
+	return g.ok("And", p.v.And(q.v), new(big.Int).And(p.b, q.b), fmt.Sprintf("%x, %x", p.b, q.b))
+}
+func (g *c20g[T]) or(p, q c20p[T]) c20p[T] {
+	return g.ok("Or", p.v.Or(q.v), new(big.Int).Or(p.b, q.b), fmt.Sprintf("%x, %x", p.b, q.b))
+}
+
+// sub returns ok=false when the exact difference is negative (the call must then panic).
+func (g *c20g[T]) sub(p, q c20p[T]) (res c20p[T], ok bool) {
+	w := new(big.Int).Sub(p.b, q.b)
+	in := fmt.Sprintf("%x, %x", p.b, q.b)
+	var v T
+	panicked := func() (pn bool) {
+		defer func() {
+			if recover() != nil {
+				pn = true
+			}
+		}()
+		v = p.v.Sub(q.v)
+		return false
+	}()
+	switch {
+	case w.Sign() < 0 && !panicked:
+		g.n++
+		g.fail(g.phase+":Sub/missed-overflow", fmt.Sprintf("Sub(%s) = %x: no underflow signalled", in, c20big(g.toL(v))))
+		return res, false
+	case w.Sign() < 0:
+		g.n++
+		return res, false
+	case panicked:
+		g.n++
+		g.fail(g.phase+":Sub/spurious-overflow", fmt.Sprintf("Sub(%s) signals underflow, exact result %x", in, w))
+		return c20p[T]{g.fromL(c20limbs(w, int(g.W/64))), w}, true
+	}
+	return g.ok("Sub", v, w, in), true
+}
+func (g *c20g[T]) lessThan(p, q c20p[T]) bool {
+	g.n++
+	want := p.b.Cmp(q.b) < 0
+	if got := p.v.LessThan(q.v); got != want {
+		g.fail(g.phase+":LessThan/wrong-value", fmt.Sprintf("LessThan(%x, %x) = %v", p.b, q.b, got))
+	}
+	return want
+}
+
+type c20masks[T FPUint[T]] struct {
+	kmer, left, right c20p[T]
+	sparse, ok        bool
+}
+
+// masks builds the three masks of NewKmerMap for k (sparse mode <=> k odd, as NewKmerMap imposes).
+func (g *c20g[T]) masks(k uint) (m c20masks[T]) {
+	g.phase = "kmer-masks"
+	one := g.one()
+	if m.kmer, m.ok = g.sub(g.lsh(one, 2*k), one); !m.ok {
+		return // 2k = width: 1<<2k leaves the word, 0-1 must signal underflow
+	}
+	m.left, m.right = g.zero(), g.zero()
+	if m.sparse = k%2 == 1; m.sparse {
+		at := k / 2
+		left, right := 2*at, 2*(k-1-at)
+		l, _ := g.sub(g.lsh(g.one(), left), g.one())
+		m.left = g.lsh(l, right+2)
+		m.right, _ = g.sub(g.lsh(g.one(), right), g.one())
+	}
+	return m
+}
+
+// roll mirrors KmerMap.NormalizedKmerSlice + KmerAsString on one word (codes 0..3).
+func (g *c20g[T]) roll(k uint, m c20masks[T], word []byte) {
+	cur, ccur := g.zero(), g.zero()
+	size := uint(0)
+	squeeze := func(x c20p[T]) c20p[T] {
+		if !m.sparse {
+			return x
+		}
+		return g.or(g.rsh(g.and(x, m.left), 2), g.and(x, m.right))
+	}
+	for _, code := range word {
+		g.phase = "kmer-roll-forward"
+		cur = g.or(g.and(g.lsh(cur, 2), m.kmer), g.from64(uint64(code)))
+		g.phase = "kmer-roll-reverse"
+		ccur = g.or(g.rsh(ccur, 2), g.lsh(g.from64(uint64(3-code)), 2*(k-1)))
+		if size++; size < k {
+			continue
+		}
+		size--
+		g.phase = "kmer-canonical"
+		fw, rv := squeeze(cur), squeeze(ccur)
+		kmer := rv
+		if g.lessThan(fw, rv) {
+			kmer = fw
+		}
+		g.phase = "kmer-decode"
+		ks := k
+		if m.sparse {
+			ks--
+		}
+		three := g.from64(3)
+		for i := uint(0); i < ks; i++ {
+			g.n++
+			want := new(big.Int).And(kmer.b, three.b).Uint64()
+			if got := g.and(kmer, three).v.AsUint64(); got != want {
+				g.fail(g.phase+":AsUint64/wrong-value", fmt.Sprintf("AsUint64(%x & 3) = %d", kmer.b, got))
+			}
+			kmer = g.rsh(kmer, 2)
+		}
+	}
+}
+
+func c20seq[T FPUint[T]](W uint, toL func(T) []uint64, fromL func([]uint64) T, c c20case, fail func(step, desc string)) int64 {
+	g := &c20g[T]{W: W, toL: toL, fromL: fromL, mod: new(big.Int).Lsh(big.NewInt(1), W), fail: fail}
+	func() {
+		defer func() {
+			if p := recover(); p != nil {
+				g.fail(g.phase+"/panic", fmt.Sprint(p))
+			}
+		}()
+		m := g.masks(c.N)
+		if m.ok && c.Word != "" {
+			word := make([]byte, len(c.Word))
+			for i := range word {
+				word[i] = c.Word[i] - '0'
+			}
+			g.roll(c.N, m, word)
+		}
+	}()
+	return g.n
+}
+
+// c20words: all words of period 1..3 over the four codes, cut at length n (rotations included).
+func c20words(n int) []string {
+	seen := map[string]bool{}
+	var out []string
+	for p := 1; p <= 3; p++ {
+		for _, unit := range verifkit.AllStrings("0123", p, p) {
+			w := strings.Repeat(unit, n/p+1)[:n]
+			if !seen[w] {
+				seen[w] = true
+				out = append(out, w)
+			}
+		}
+	}
+	return out
+}
+
 func TestVerifC20(t *testing.T) {
 	log.SetOutput(io.Discard)
 	r := verifkit.New("C20")
 	defer r.Write()
 
 	eval := func(c c20case) {
-		if c20leaked >= 3 && (c.Op == "Div" || c.Op == "Mod" || c.Op == "QuoRem") {
-			r.Cap("division cases skipped after 3 non-terminating divisions")
+		if c.Op == "seq" {
+			fail := func(step, desc string) {
+				r.Violate(fmt.Sprintf("FPUint[Uint%d]/%s", c.Width, step),
+					fmt.Sprintf("generic client sequence, Uint%d k=%d word=%q: %s", c.Width, c.N, c.Word, desc), c)
+			}
+			var n int64
+			switch c.Width {
+			case 64:
+				n = c20seq[Uint64](64, l64, mk64, c, fail)
+			case 128:
+				n = c20seq[Uint128](128, l128, mk128, c, fail)
+			case 256:
+				n = c20seq[Uint256](256, l256, mk256, c, fail)
+			}
+			r.Eval(1)
+			r.Trans(n)
+			r.Count("nontrivial", 1)
+			r.Count("sequence_runs", 1)
+			r.Count("sequence_op_applications", n)
+			return
+		}
+		if c20leaked >= 3 && c20mayHang(c) {
+			r.Cap("division / huge-shift cases skipped after 3 non-terminating calls")
 			return
 		}
 		msg, nt := c20check(c)
@@ -533,15 +870,31 @@ func TestVerifC20(t *testing.T) {
 			case strings.Contains(msg, "no overflow is signalled"):
 				class = "missed-overflow"
 				if c.Width == 128 && c.Op == "Mul" && c.A[1] != 0 && c.B[1] != 0 {
-					// both operands >= 2^64: the repository's own TestUint128_Mul expects the
-					// wrapped product here (see known_findings.txt)
-					class = "missed-overflow:both-operands>=2^64"
+					// both operands >= 2^64: Mul never computes w1*w1 and the repository's own
+					// TestUint128_Mul expects the wrapped product (see known_findings.txt). The key is
+					// granted only when that product is the ONLY reason of the overflow, i.e. when
+					// a0*b0 + (a1*b0 + a0*b1)*2^64 still fits 128 bits: a miss with an overflowing
+					// lower part is another defect and keeps the plain key.
+					lim := func(x uint64) *big.Int { return new(big.Int).SetUint64(x) }
+					cross := new(big.Int).Mul(lim(c.A[1]), lim(c.B[0]))
+					cross.Add(cross, new(big.Int).Mul(lim(c.A[0]), lim(c.B[1])))
+					low := new(big.Int).Mul(lim(c.A[0]), lim(c.B[0]))
+					low.Add(low, cross.Lsh(cross, 64))
+					if low.BitLen() <= 128 {
+						class = "missed-overflow:both-operands>=2^64"
+						r.Count("known_Uint128.Mul_only-w1*w1-overflows", 1)
+					}
 				}
 			case strings.Contains(msg, "unexpected panic"):
 				class = "panic"
+			case strings.HasPrefix(msg, "carry:"):
+				class = "wrong-carry"
+			}
+			if (c.Op == "LeftShift" || c.Op == "RightShift") && c.N > uint(c.Width)+64 {
+				class += ":amount>width+64"
 			}
 			key := fmt.Sprintf("Uint%d.%s/%s", c.Width, c.Op, class)
-			r.Violate(key, fmt.Sprintf("Uint%d.%s(a=%x b=%x n=%d): %s", c.Width, c.Op, c20big(c.A), c20bigOrNil(c.B), c.N, msg), c)
+			r.Violate(key, fmt.Sprintf("Uint%d.%s(a=%x b=%x n=%d): %s", c.Width, c.Op, c.A, c.B, c.N, msg), c)
 		}
 	}
 
@@ -555,14 +908,55 @@ func TestVerifC20(t *testing.T) {
 	}
 
 	full := []uint64{0, 1, 2, 1 << 31, 1<<32 - 1, 1<<63 - 1, 1 << 63, ^uint64(0) - 1, ^uint64(0)}
+	// wide: + 2^k+1 forms, 2^32, and three dense words (alternating bits both ways, an irregular one)
+	wide := append(append([]uint64{}, full...), 3, 1<<32, 1<<32+1, 1<<63+1,
+		0x5555555555555555, 0xAAAAAAAAAAAAAAAA, 0x9E3779B97F4A7C15)
 	small := []uint64{0, 1, 1<<32 - 1, 1 << 63, ^uint64(0)}
-	alpha := map[int][]uint64{64: full, 128: full, 256: small}
+	alpha := map[int][]uint64{64: wide, 128: wide, 256: small}
 	if verifkit.Thorough() {
-		alpha[256] = []uint64{0, 1, 2, 1<<32 - 1, 1 << 63, ^uint64(0) - 1, ^uint64(0)}
+		alpha[256] = []uint64{0, 1, 2, 1<<32 - 1, 1<<63 - 1, 1 << 63, ^uint64(0) - 1, ^uint64(0)}
 	}
-	r.Bound("limb_alphabet_64_128", fmt.Sprintf("%x", full))
+	r.Bound("limb_alphabet_64_128", fmt.Sprintf("%x", wide))
 	r.Bound("limb_alphabet_256", fmt.Sprintf("%x", alpha[256]))
-	r.Bound("shift_amounts", "0..width+64")
+	r.Bound("operands", "all limb tuples over the alphabet + 2^k-1, 2^k, 2^k+1 for every k of the width")
+	r.Bound("shift_amounts", "0..width+64, then width+65, width+127, width+128, 2^31-1, 2^31, 2^32-1, 2^32, 2^32+1, 2^32+64, 2^63, 2^63+1, 2^64-64, 2^64-1")
+
+	// operands of width W: limb tuples + the power family of the quantifier
+	operands := func(W int) [][]uint64 {
+		ops := c20tuples(alpha[W], W/64)
+		seen := map[string]bool{}
+		for _, o := range ops {
+			seen[fmt.Sprint(o)] = true
+		}
+		one := big.NewInt(1)
+		for k := uint(0); k <= uint(W); k++ {
+			p := new(big.Int).Lsh(one, k)
+			for _, x := range []*big.Int{new(big.Int).Sub(p, one), p, new(big.Int).Add(p, one)} {
+				if x.BitLen() > W {
+					continue
+				}
+				l := c20limbs(x, W/64)
+				if !seen[fmt.Sprint(l)] {
+					seen[fmt.Sprint(l)] = true
+					ops = append(ops, l)
+				}
+			}
+		}
+		return ops
+	}
+	var words64 []uint64 // single words: alphabet + power family
+	for _, o := range operands(64) {
+		words64 = append(words64, o[0])
+	}
+	shifts := func(W int) []uint {
+		var out []uint
+		for n := uint(0); n <= uint(W)+64; n++ {
+			out = append(out, n)
+		}
+		w := uint(W)
+		return append(out, w+65, w+127, w+128, 1<<31-1, 1<<31, 1<<32-1, 1<<32, 1<<32+1, 1<<32+64,
+			1<<63, 1<<63+1, ^uint(0)-63, ^uint(0))
+	}
 
 	unary := []string{"Not", "IsZero", "AsUint64", "ToUint64", "ToUint128", "ToUint256", "Zero", "MaxValue"}
 	binary := map[int][]string{
@@ -571,24 +965,87 @@ func TestVerifC20(t *testing.T) {
 		256: {"Add", "Sub", "Mul", "Div", "And", "Or", "Xor", "Cmp", "Equals", "LessThan", "LessThanOrEqual", "GreaterThan", "GreaterThanOrEqual"},
 	}
 	k := 0
+
+	// ---- 1. generic entry points and the client's operation sequences
 	for _, W := range []int{64, 128, 256} {
-		ops := c20tuples(alpha[W], W/64)
-		for ia, a := range ops {
+		ones := make([]uint64, W/64)
+		for i := range ones {
+			ones[i] = ^uint64(0)
+		}
+		if r.Mine(k) {
+			eval(c20case{Width: W, Op: "ZeroUint", A: []uint64{0}})
+			eval(c20case{Width: W, Op: "OneUint", A: []uint64{0}})
+			for _, v := range words64 {
+				eval(c20case{Width: W, Op: "From64", A: []uint64{v}})
+				eval(c20case{Width: W, Op: "Set64", A: []uint64{v}})          // zero receiver
+				eval(c20case{Width: W, Op: "Set64", A: []uint64{v}, B: ones}) // all-ones receiver
+			}
+		}
+		k++
+		rollAt := map[uint]bool{}
+		for _, b := range []uint{1, 2, 3, 4, 16, 32, 48, 64, 96} {
+			for d := -1; d <= 1; d++ {
+				rollAt[uint(int(b)+d)] = true
+			}
+		}
+		rollAt[uint(W/2-1)], rollAt[uint(W/2-2)] = true, true
+		for ks := uint(1); ks <= uint(W/2); ks++ {
+			if r.Mine(k) {
+				eval(c20case{Width: W, Op: "seq", N: ks})
+				if rollAt[ks] && 2*ks < uint(W) {
+					for _, w := range c20words(int(ks) + 2) {
+						eval(c20case{Width: W, Op: "seq", N: ks, Word: w})
+					}
+				}
+			}
+			k++
+		}
+	}
+
+	// ---- 2. the per-limb primitives of Uint64
+	for _, a := range words64 {
+		if r.Mine(k) {
+			for _, n := range shifts(64) {
+				seen := map[uint64]bool{}
+				for _, x := range wide {
+					eval(c20case{Width: 64, Op: "LeftShift64", A: []uint64{a}, B: []uint64{x}, N: n})
+					cin := x // RightShift64: carry-in words inside the window of the n upper bits
+					if n < 64 {
+						cin = x &^ (uint64(1)<<(64-n) - 1)
+					}
+					if !seen[cin] {
+						seen[cin] = true
+						eval(c20case{Width: 64, Op: "RightShift64", A: []uint64{a}, B: []uint64{cin}, N: n})
+					}
+				}
+			}
+			for _, b := range words64 {
+				eval(c20case{Width: 64, Op: "Mul64", A: []uint64{a}, B: []uint64{b}})
+				for cin := uint64(0); cin <= 1; cin++ {
+					eval(c20case{Width: 64, Op: "Add64", A: []uint64{a}, B: []uint64{b, cin}})
+					eval(c20case{Width: 64, Op: "Sub64", A: []uint64{a}, B: []uint64{b, cin}})
+				}
+			}
+		}
+		k++
+	}
+
+	// ---- 3. every operation on every operand / operand pair
+	for _, W := range []int{64, 128, 256} {
+		ops := operands(W)
+		r.Bound(fmt.Sprintf("operands_%d", W), len(ops))
+		for _, a := range ops {
 			r.State(fmt.Sprintf("%d:%x", W, a))
 			if r.Mine(k) {
 				for _, op := range unary {
 					eval(c20case{Width: W, Op: op, A: a})
 				}
-				for n := uint(0); n <= uint(W)+64; n++ {
+				for _, n := range shifts(W) {
 					eval(c20case{Width: W, Op: "LeftShift", A: a, N: n})
 					eval(c20case{Width: W, Op: "RightShift", A: a, N: n})
 				}
-				if ia < len(full) || W == 64 {
-					eval(c20case{Width: W, Op: "Set64", A: []uint64{a[0]}})
-					eval(c20case{Width: W, Op: "From64", A: []uint64{a[0]}})
-				}
 				if W == 128 {
-					for _, b := range full {
+					for _, b := range words64 {
 						for _, op := range []string{"Add64", "Mul64", "Div64", "Mod64", "QuoRem64", "Cmp64"} {
 							eval(c20case{Width: W, Op: op, A: a, B: []uint64{b}})
 						}
@@ -609,8 +1066,49 @@ func TestVerifC20(t *testing.T) {
 			}
 		}
 	}
+
+	// ---- 4. divisions at the quotient-correction boundaries: dividends built as q*v + r with
+	// r in {0, 1, v-1} (exact multiples, one above, one below the next multiple) for every divisor v of
+	// the operand domain and every single-word quotient q, whenever the dividend fits the width.
+	for _, W := range []int{128, 256} {
+		divOps := []string{"Div", "Mod", "QuoRem"}
+		if W == 256 {
+			divOps = []string{"Div"}
+		}
+		for _, v := range operands(W) {
+			V := c20big(v)
+			if V.Sign() == 0 {
+				continue
+			}
+			if r.Mine(k) {
+				seen := map[string]bool{}
+				for _, q := range words64 {
+					QV := new(big.Int).Mul(new(big.Int).SetUint64(q), V)
+					for _, rem := range []*big.Int{new(big.Int), big.NewInt(1), new(big.Int).Sub(V, big.NewInt(1))} {
+						A := new(big.Int).Add(QV, rem)
+						if rem.Cmp(V) >= 0 || A.BitLen() > W || seen[A.String()] {
+							continue
+						}
+						seen[A.String()] = true
+						r.Count("division_boundary_dividends", 1)
+						for _, op := range divOps {
+							eval(c20case{Width: W, Op: op, A: c20limbs(A, W/64), B: v})
+						}
+					}
+				}
+			}
+			k++
+		}
+		if r.Expired() {
+			return
+		}
+	}
+	r.RequireNonVacuous("sequence_runs")
+	r.RequireNonVacuous("division_boundary_dividends")
 	r.Sample(c20case{Width: 256, Op: "Mul", A: []uint64{^uint64(0), 1, 0, 0}, B: []uint64{1 << 63, 0, 0, 0}})
 	r.Sample(c20case{Width: 128, Op: "LeftShift", A: []uint64{1, 1 << 63}, N: 65})
+	r.Sample(c20case{Width: 64, Op: "LeftShift64", A: []uint64{1 << 63}, B: []uint64{^uint64(0)}, N: 3})
+	r.Sample(c20case{Width: 128, Op: "seq", N: 31, Word: "012012012012012012012012012012012"})
 }
 
 func c20bigOrNil(l []uint64) *big.Int {
